@@ -1003,6 +1003,11 @@ func readTcbInfoTcbStatus(tcbInfo pcs.TcbInfo, tdQuoteBody *pb.TDQuoteBody, pckC
 			return pcs.TcbLevel{}, err
 		}
 		logger.V(2).Info("Tdx Module TCB Status found: ", matchingTdxModuleTcbLevel.TcbStatus)
+		// Both the platform's matching TCB level and the TDX module's matching TCB level have to
+		// be UpToDate: report the platform level when it is the one that is not.
+		if matchingTcbLevel.TcbStatus != pcs.TcbComponentStatusUpToDate {
+			return matchingTcbLevel, nil
+		}
 		return *matchingTdxModuleTcbLevel, nil
 	}
 
